@@ -13,7 +13,7 @@ RERECORD_ON_SHRINK = False
 MINIMISE_BUDGET_S = 60.0
 
 TIERS = {
-    'quick': {'runs': 6000, 'budget_s': 240, 'batch': 40},
+    'quick': {'runs': 12000, 'budget_s': 240, 'batch': 40},
     'thorough': {'runs': 120000, 'budget_s': 900, 'batch': 80},
 }
 
